@@ -19,7 +19,7 @@ func parseArraiStringFragment(s string, validEscapes string, indent string) stri
 			panic(err)
 		}
 		sb.WriteRune(rune(n))
-		return i + size
+		return i + size - 1
 	}
 
 	for i := 0; i < len(s); i++ {
